@@ -396,9 +396,15 @@ class SimSocket(object):
     srv.conns.append(conn)
     self.net.all_conns.append(conn)
     self.conn = conn
-    srv.connect_attempts.append([t0, 'ok', env.now, origin])
+    if mode == 'accept-drop':
+      # something in front of a dead backend accepts the connection and hangs up as soon as the
+      # client says anything: the connect succeeds, nothing can be done over the connection
+      srv.connect_attempts.append([t0, 'accept-drop', env.now, origin])
+      conn.drop_on_data = self.net.env.case_rng.choice(['fin', 'rst'])
+    else:
+      srv.connect_attempts.append([t0, 'ok', env.now, origin])
     conn.handler = srv.handler_factory(conn) if srv.handler_factory else None
-    env.emit('net.connect.end', ep=srv.ep, result='ok', conn=conn.id)
+    env.emit('net.connect.end', ep=srv.ep, result='ok' if mode != 'accept-drop' else 'accept-drop', conn=conn.id)
     hook = self.net.connect_hook
     if hook is not None:
       hook(srv, origin)       # harness: something else happens in the very instant a connect completes
@@ -459,6 +465,9 @@ class SimSocket(object):
           raise _oserr(errno.EBADF)
       if conn.server_closed:
         continue          # FIN'd peer: bytes are dropped silently
+      if getattr(conn, 'drop_on_data', None):
+        conn.close_by_server(conn.drop_on_data)
+        continue
       if conn.handler is not None and not conn.client_closed and (pi == len(parts) - 1):
         conn.handler.on_data(conn)
 
